@@ -1,7 +1,7 @@
 (* C02 — property theorems. Statements only, each closed by `exact <lemma>`; Print Assumptions beneath;
    non-vacuity examples. *)
 From Coq Require Import List NArith Sorting.Sorted.
-From C02 Require Import Model CaseDefs ProofsNodes ProofsBorders ProofsIterate ProofsFold.
+From C02 Require Import Model CaseDefs ProofsNodes ProofsBorders ProofsIterate ProofsFold ProofsLeaf ProofsSearch.
 Import ListNotations.
 Open Scope N_scope.
 
@@ -76,21 +76,55 @@ Theorem C02_node_spec_complete :
 Proof. exact node_spec_ok_complete. Qed.
 Print Assumptions C02_node_spec_complete.
 
-(* thm:C02_search_exact — NOT closed in the time box. Full statement (kept as the goal):
-     forall c q from to rev limit wt,
-       Forall ok_doc c -> NoDup (map did c) -> N.of_nat (length c) + 1 < 2^32 ->
-       search_model c q from to rev limit wt = Ok (search_spec c q from to rev limit wt).
-   Proved pieces: the node tree (C02_nodes_sound), the borders and the LID table (C02_borders,
-   C02_table_sorted), the loop (C02_iterate_exact). Missing: leaf_tree/posting/vocab = token semantics of a
-   leaf, build_tree = sat by induction on the query, and the sorted-uniqueness step to IdSort.sort.
-   The equation itself is evaluated by the correspondence run on every generated request
-   (case_agrees = model vs real answer, case_spec_ok = search_spec vs real answer). *)
+(* thm:C02_search_exact — for EVERY corpus (any arrival order, equal timestamps, repeated tokens) whose IDs are
+   pairwise distinct, with MID >= 1, RID <= 2^64-1 and fewer than 2^32-1 documents, every query tree (AND/OR/NOT/
+   NAND at any depth over literal, prefix and suffix leaves), every [from,to], both orders, every limit (0 and
+   > matches included), with or without total, with or without a histogram request: the model of the fraction's
+   search (LID table, getLIDsBorders, leaf postings OR-folded by TreeFold, merge nodes, iterateEvalTree)
+   terminates (no OutOfFuel) and returns exactly the specification: the IDs of the documents that satisfy the
+   query inside [from,to], strictly ordered by (MID,RID) in the requested direction, cut to the first `limit`,
+   and Total = number of matching DOCUMENTS when requested (0 otherwise). *)
+Theorem C02_search_exact :
+  forall c from to q, Forall ok_doc c -> NoDup (map did c) -> N.of_nat (length c) + 1 < 4294967296 ->
+  forall rev limit wt hist,
+    search_model c q from to rev limit wt hist = Ok (search_spec c q from to rev limit wt).
+Proof. exact search_exact. Qed.
+Print Assumptions C02_search_exact.
+
+(* histogram: for the same corpora, the buckets (mid - mid % interval) the fraction counts over its LID stream
+   are the buckets of the matching DOCUMENTS, whatever the order of the stream. *)
+Theorem C02_hist_exact :
+  forall c from to q, Forall ok_doc c -> NoDup (map did c) -> N.of_nat (length c) + 1 < 4294967296 ->
+  forall rev hist, hist_prepared (prepare c) q from to rev hist = Ok (hist_spec c q from to hist).
+Proof. exact hist_exact. Qed.
+Print Assumptions C02_hist_exact.
+
+(* link to the correspondence run: a CSearch request answered exactly as the specification says passes both
+   executable verdicts (model = answer, spec = answer) — the verdict functions the check evaluates on the real
+   fraction's answers are the ones the theorems speak about. *)
+Theorem C02_search_case_ok :
+  forall c from to q rev limit wt hist,
+  Forall ok_doc c -> NoDup (map did c) -> N.of_nat (length c) + 1 < 4294967296 ->
+  let '(ids, total) := search_spec c q from to rev limit wt in
+  let s := SQ q q from to rev limit wt hist ids total (hist_spec c q from to hist) in
+  sq_agrees (prepare c) s = true /\ sq_spec_ok c s = true.
+Proof. exact search_case_ok. Qed.
+Print Assumptions C02_search_case_ok.
+
+(* multiplicity of a token inside a document does not matter: whether a document satisfies a query (hence its
+   membership in every posting list, the answer and the total) depends only on the SET of its tokens — a
+   repeated word must not be counted twice. *)
+Theorem C02_token_multiplicity :
+  forall q m1 r1 m2 r2 ts1 ts2, (forall u, In u ts1 <-> In u ts2) ->
+    sat q (Doc m1 r1 ts1) = sat q (Doc m2 r2 ts2).
+Proof. exact sat_set. Qed.
+Print Assumptions C02_token_multiplicity.
 
 (* ex:C02_nonvacuous — six documents, three sharing the timestamp at which the limit cuts; NOT under AND,
    a prefix leaf; both orders; the model equals the specification, the hypotheses of the theorems hold *)
 Definition ex_corpus : list doc :=
   [Doc 10 5 [(0, [97]); (1, [98])]; Doc 12 1 [(0, [97])]; Doc 11 7 [(0, [97; 98]); (1, [98])];
-   Doc 11 2 [(0, [97])]; Doc 11 9 [(0, [98])]; Doc 13 4 [(0, [97; 97])]].
+   Doc 11 2 [(0, [97]); (0, [97])]; Doc 11 9 [(0, [98])]; Doc 13 4 [(0, [97; 97]); (1, [99]); (0, [97; 97])]].
 Definition ex_query : query := QNAnd (QLeaf (PLit 1 [98])) (QLeaf (PPrefix 0 [97])).
 
 Example C02_nonvacuous :
